@@ -282,3 +282,85 @@ Proof.
     destruct (Zlen l <=? n); fin.
     destruct (nth_error l (Z.to_nat n)) as [[v|]|]; fin.
 Qed.
+
+(* ------------------------------------------------------------------ whole programs *)
+Lemma sem_run_eq : forall prog st pc fuel,
+  Sem.run_from prog st pc fuel =
+  if pc <? 0 then (st, pc, Unspec pc)
+  else if Zlen prog <=? pc then (st, pc, Halt)
+  else match nth_error prog (Z.to_nat pc) with
+       | None => (st, pc, Halt)
+       | Some i =>
+           match fuel with
+           | O => (st, pc, OutOfFuel)
+           | S f => match step i st pc with
+                    | Next st' pc' => Sem.run_from prog st' pc' f
+                    | Stop o => (st, pc, o)
+                    end
+           end
+       end.
+Proof. intros prog st pc fuel. destruct fuel; reflexivity. Qed.
+
+Lemma exec_run_eq : forall prog st pc fuel,
+  Exec.run_from prog st pc fuel =
+  if pc <? Zlen prog then
+    match py_getitem prog pc with
+    | Ok i =>
+        match fuel with
+        | O => (st, pc, OutOfFuel)
+        | S f => match execute_command i st pc with
+                 | Ok (st', pc') => Exec.run_from prog st' pc' f
+                 | Raise k => (st, pc, Fault k pc)
+                 | Block => (st, pc, Blocked pc)
+                 end
+        end
+    | _ => (st, pc, Crash)
+    end
+  else (st, pc, Halt).
+Proof. intros prog st pc fuel. destruct fuel; reflexivity. Qed.
+
+Lemma defined_from_pc : forall prog st pc, defined_from prog st pc -> pc <? 0 = false.
+Proof.
+  intros prog st pc H. specialize (H O). rewrite sem_run_eq in H.
+  destruct (pc <? 0); [cbn in H; discriminate|reflexivity].
+Qed.
+
+(* the implementation model and the reference semantics produce the same final
+   state, pc and outcome for every program, from every state and pc, for every
+   step bound -- by induction on the number of executed instructions *)
+Theorem run_from_refines : forall fuel prog st pc,
+  defined_from prog st pc ->
+  Exec.run_from prog st pc fuel = Sem.run_from prog st pc fuel.
+Proof.
+  induction fuel as [|f IH]; intros prog st pc H;
+    pose proof (defined_from_pc _ _ _ H) as Hpc;
+    rewrite exec_run_eq, sem_run_eq; rewrite Hpc;
+    (destruct (Zlen prog <=? pc) eqn:E;
+     [ replace (pc <? Zlen prog) with false by lia; reflexivity |]);
+    replace (pc <? Zlen prog) with true by lia;
+    rewrite py_getitem_nonneg by lia; rewrite E;
+    (destruct (nth_error_in_range _ prog pc) as [i Hi]; [lia|lia|]); rewrite Hi.
+  - reflexivity.
+  - assert (Hs : step i st pc <> Stop (Unspec pc)).
+    { intro Hc. specialize (H 1%nat). rewrite sem_run_eq in H.
+      rewrite Hpc, E, Hi, Hc in H. cbn in H. discriminate. }
+    pose proof (step_refines i st pc Hs) as R.
+    destruct (execute_command i st pc) as [[st' pc']|k|]; cbn [to_sres] in R; rewrite <- R.
+    + apply IH. intro f'. specialize (H (S f')). rewrite sem_run_eq in H.
+      rewrite Hpc, E, Hi, <- R in H. exact H.
+    + reflexivity.
+    + reflexivity.
+Qed.
+
+Theorem exec_refines_sem : forall prog st fuel,
+  defined_domain prog st -> Exec.run prog st fuel = Sem.run prog st fuel.
+Proof. intros prog st fuel H. apply run_from_refines. exact H. Qed.
+
+(* several subroutines against one application state: induction on the list *)
+Theorem run_many_refines : forall subs st fuel,
+  defined_many subs st fuel -> Exec.run_many subs st fuel = Sem.run_many subs st fuel.
+Proof.
+  induction subs as [|p ps IH]; intros st fuel H; [reflexivity|].
+  destruct H as [Hd Hm]. cbn [Exec.run_many Sem.run_many].
+  rewrite (exec_refines_sem p st fuel Hd). f_equal. apply IH. exact Hm.
+Qed.
